@@ -382,7 +382,6 @@ package gen
 //@   modifies nothing
 //@   ensures[C12] ref(res) == 0
 
-
 // ---- object invariant of the field types: each holds a well-formed statistics accumulator.
 // It is established by the generated constructors (checked) and assumed at
 // method entry (free-requires): the containers that carry field objects
@@ -410,7 +409,7 @@ package gen
 
 //@ iface Field.Read
 //@   requires external(r)
-//@   modifies obj(self), heap("[]int64"), heap("[]string"), heap("[]bool"), heap("[]float32"), heap("[]float64"), heap("parquet.readCounter"), srcPos, rfault
+//@   modifies obj(self), heap("[]int64"), heap("[]string"), heap("[]bool"), heap("[]float32"), heap("[]float64"), heap("parquet.readCounter"), srcPos, rfault, vPage, vDefs
 //@   ensures[C10] err == nil ==> (rfault ==> old(rfault))
 
 //@ iface Field.Scan
@@ -433,7 +432,7 @@ package gen
 
 //@ func NewParquetReader
 //@   requires external(r)
-//@   modifies allheaps, srcPos, rfault
+//@   modifies allheaps, srcPos, rfault, vPage, vDefs
 //@   ensures[C11] err == nil ==> srcSize >= 8 && srcMagic(srcSize - 4) && srcLE32(srcSize - 8) + 8 <= srcSize
 //@   ensures err == nil ==> readerOK(res0)
 //@   ensures[C10] err == nil ==> (rfault ==> old(rfault))
@@ -444,7 +443,7 @@ package gen
 
 //@ func (*ParquetReader).readRowGroup
 //@   requires readerOK(p)
-//@   modifies p, anyobj("GEN.Field"), heap("map[string][]parquet.Page"), heap("[]int64"), heap("[]string"), heap("[]bool"), heap("[]float32"), heap("[]float64"), heap("parquet.readCounter"), srcPos, rfault
+//@   modifies p, anyobj("GEN.Field"), heap("map[string][]parquet.Page"), heap("[]int64"), heap("[]string"), heap("[]bool"), heap("[]float32"), heap("[]float64"), heap("parquet.readCounter"), srcPos, rfault, vPage, vDefs
 //@   ensures p.r == old(p.r)
 //@   ensures[C10] err == nil ==> (rfault ==> old(rfault))
 //@ loop (*ParquetReader).readRowGroup#1
@@ -452,7 +451,7 @@ package gen
 
 //@ func (*ParquetReader).Next
 //@   requires readerOK(p)
-//@   modifies p, anyobj("GEN.Field"), heap("map[string][]parquet.Page"), heap("[]int64"), heap("[]string"), heap("[]bool"), heap("[]float32"), heap("[]float64"), heap("parquet.readCounter"), srcPos, rfault
+//@   modifies p, anyobj("GEN.Field"), heap("map[string][]parquet.Page"), heap("[]int64"), heap("[]string"), heap("[]bool"), heap("[]float32"), heap("[]float64"), heap("parquet.readCounter"), srcPos, rfault, vPage, vDefs
 //@   ensures p.r == old(p.r)
 //@   ensures[C10] rfault && !old(rfault) ==> !res && p.err != nil
 
